@@ -164,10 +164,10 @@ def ovSetter01 : Option K → Except Err (Option K)
   | none => .ok none
   | some v => if 0 ≤ v ∧ v ≤ 1 then .ok (some v) else .error .assert
 
-/-- Setter of `flr_h`: `None` or `float_positive(v)`, which is `0 ≤ v` (zero included). -/
+/-- Setter of `flr_h`: `None` or `float_in_range_excl(v, 0)`, i.e. strictly positive. -/
 def ovSetterPos : Option K → Except Err (Option K)
   | none => .ok none
-  | some v => if 0 ≤ v then .ok (some v) else .error .assert
+  | some v => if 0 < v then .ok (some v) else .error .assert
 
 end Ordered
 
@@ -187,26 +187,72 @@ def setCell (lib : Lib K) (ti ei zi : Nat) (a : Arch K) : Except Err (Lib K) :=
       if zi < col.length then .ok (lib.set ti (row.set ei (col.set zi (some a))))
       else .error .index
 
-/-- Body of the loop over `ref_bem_vector`. -/
-def customize1 (zi : Nat) (lib : Lib K) (c : Arch K) : Except Err (Lib K) :=
+/-- `custom_bem_row`: new-type name → index of the row appended for it (insertion order). -/
+abbrev RowMap := List (String × Nat)
+
+def lookupRow (t : String) : RowMap → Option Nat
+  | [] => none
+  | (t', i) :: rest => if t' = t then some i else lookupRow t rest
+
+/-- Body of the loop over `ref_bem_vector`: a reference type is written into its own row; a new
+    type into the row appended at its first appearance (later customs of that type reuse it). -/
+def customize1 (zi : Nat) (lib : Lib K) (m : RowMap) (c : Arch K) : Except Err (Lib K × RowMap) :=
+  if 3 ≤ c.era then .error .value
+  else
+    match refBldType.idxOf? c.bldtype with
+    | some ti =>
+      match setCell lib ti c.era zi c with
+      | .error e => .error e
+      | .ok lib' => .ok (lib', m)
+    | none =>
+      match lookupRow c.bldtype m with
+      | some ti =>
+        match setCell lib ti c.era zi c with
+        | .error e => .error e
+        | .ok lib' => .ok (lib', m)
+      | none =>
+        match setCell (lib ++ [newRow]) lib.length c.era zi c with
+        | .error e => .error e
+        | .ok lib' => .ok (lib', m ++ [(c.bldtype, lib.length)])
+
+def customizeLoop (zi : Nat) : List (Arch K) → Lib K → RowMap → Except Err (Lib K × RowMap)
+  | [], lib, m => .ok (lib, m)
+  | c :: cs, lib, m =>
+    match customize1 zi lib m c with
+    | .error e => .error e
+    | .ok (lib', m') => customizeLoop zi cs lib' m'
+
+/-- `_customize_reference_data` (the BEM half; the schedule half has the same shape, keys and its
+    own row dictionary). -/
+def customize (zone : String) (cs : List (Arch K)) (lib : Lib K) : Except Err (Lib K) :=
+  match zoneIdx? zone with
+  | none => .error .value
+  | some zi =>
+    match customizeLoop zi cs lib [] with
+    | .error e => .error e
+    | .ok (lib', _) => .ok lib'
+
+/-! `_customize_reference_data` before the repair: every custom of a new type appended a row of its
+own (so two customs with the same new type and era were both simulated). -/
+
+def customize1Asis (zi : Nat) (lib : Lib K) (c : Arch K) : Except Err (Lib K) :=
   if 3 ≤ c.era then .error .value
   else
     match refBldType.idxOf? c.bldtype with
     | some ti => setCell lib ti c.era zi c
     | none => setCell (lib ++ [newRow]) lib.length c.era zi c
 
-def customizeLoop (zi : Nat) : List (Arch K) → Lib K → Except Err (Lib K)
+def customizeLoopAsis (zi : Nat) : List (Arch K) → Lib K → Except Err (Lib K)
   | [], lib => .ok lib
   | c :: cs, lib =>
-    match customize1 zi lib c with
+    match customize1Asis zi lib c with
     | .error e => .error e
-    | .ok lib' => customizeLoop zi cs lib'
+    | .ok lib' => customizeLoopAsis zi cs lib'
 
-/-- `_customize_reference_data` (the BEM half; the schedule half has the same shape and keys). -/
-def customize (zone : String) (cs : List (Arch K)) (lib : Lib K) : Except Err (Lib K) :=
+def customizeAsis (zone : String) (cs : List (Arch K)) (lib : Lib K) : Except Err (Lib K) :=
   match zoneIdx? zone with
   | none => .error .value
-  | some zi => customizeLoop zi cs lib
+  | some zi => customizeLoopAsis zi cs lib
 
 /-! ### `_compute_BEM` -/
 
@@ -320,7 +366,9 @@ def unmatched (d : List (Key × K)) (hs : List (Hit K)) : List Key :=
   (d.map (·.1)).filter (fun k => !(hs.map (·.key)).contains k)
 
 /-- `UWG._compute_BEM` as it stands (repaired): `(BEM, (r_glaze_total, SHGC_total, alb_wall_total))`
-    or the exception class. -/
+    or the exception class. The `zerodiv` branch (floor height 0) is in the code and kept here, but
+    the `flr_h` setter (`ovSetterPos`) no longer accepts 0, so it is unreachable through the
+    setters (`Uwg.C08.flrh_zero_refused`). -/
 def computeBEM (P : Params K) (lib : Lib K) : Except Err (List (Entry K) × Totals K) :=
   if hFloor P = 0 then .error .zerodiv
   else
